@@ -25,8 +25,9 @@ RULE = (
     "alphabet on the observed connection: REQ a f1 | REQ a f2 (disjoint from f1) | REQ b f1 | REQ a with no filter | "
     "REQ a with an invalid filter | REQ a with an unhashable tag value | REQ a with explicit nulls | CLOSE a | CLOSE b | EVENT matching f1 | EVENT "
     "matching f2 (both published by a second connection, so they arrive as live pushes) | disconnect. ALL sequences up "
-    "to depth 3 (quick) / 4 (thorough) are run on both backends, in two pacing modes (quiesce between commands / feed "
-    "the next command as soon as the previous one completed) and with an immediate and a slow consumer; seeded random "
+    "to depth 3 (quick) / 4 (thorough) are run on both backends with (quiesce between commands, immediate consumer) and (feed the "
+    "next command as soon as the previous one completed, slow consumer); the two mixed combinations run every third (quick) / "
+    "every second (thorough) sequence; seeded random "
     "sequences to depth 40 with subscription_limit in {1,2,3}, non-string ids and duplicates on top; plus REQs whose stored-events "
     "query fails while it runs (SQL: rows that cannot be decoded, connection pool exhausted; LMDB: damaged records), and a quick "
     "series of 90-300 REQs in one process with default settings (LMDB analysis queue backlog). Non-trivial = a "
